@@ -1,5 +1,6 @@
 import SparkxVerif.Core.Proto
 import SparkxVerif.Core.Smear
+import SparkxVerif.Gen.Smear
 
 /-! driver ops for C16 (floats as 16-hex-digit bit patterns):
   `lin <lo> <hi> <n>`                                  -> `ok <linspace values>`
@@ -9,6 +10,12 @@ import SparkxVerif.Core.Smear
       grid = flat C-order content before the call (`z` = all zero)
       parts = `.` or `p|p|…`, p = `x,y,z,v,numx,numy,numz,s;s;…` (`-` = NaN kernel value)
       tags = one letter per particle: `i` support inside, `c` clipped by the edge
+  `gsmear <ax>|<ax>|<ax> <nsx,nsy,nsz> <sigma> <quantity> <kernel> <add 0|1> <grid | z> <parts>`
+                                                       -> `ok <flat grid>` | `err value|type|index`
+      the function GENERATED from the current source (`Gen/Smear.lean`: `addParticleData` on the object built by the
+      generated `init` / `initAttrs`), run at Float with `lin` = the model's linspace, `isnan` = IEEE, `pyround` =
+      Python's round-half-even; parts = `.` or `p|p|…`, p = `x,y,z,E,charge,baryon,strangeness,px,py,pz,k;k;…`
+      (`-` = NaN, for the momenta and the recorded pdf values)
 -/
 namespace SparkxVerif.Drv.C16
 open SparkxVerif.Proto SparkxVerif.Smear
@@ -52,6 +59,51 @@ def part? (s : String) : Option (Part Float) :=
 def parts? (s : String) : Option (List (Part Float)) :=
   if s == "." then some [] else (s.splitOn "|").mapM part?
 
+/-- Python `round(x)` of a double: nearest integer, ties to even -/
+def pyRound (x : Float) : Int :=
+  let f := x.floor
+  let d := x - f
+  let fi : Int := f.toInt64.toInt
+  if d < 0.5 then fi else if d > 0.5 then fi + 1 else if fi % 2 == 0 then fi else fi + 1
+
+def nanF : Float := 0.0 / 0.0
+
+def fnan? (s : String) : Option Float := if s == "-" then some nanF else floatOfHex? s
+
+def gpart? (s : String) : Option (Gen.Smear.Ptl Float) :=
+  match s.splitOn "," with
+  | [x, y, z, e, ch, b, st, px, py, pz, ks] => do
+      let x ← fnan? x
+      let y ← fnan? y
+      let z ← fnan? z
+      let e ← fnan? e
+      let ch ← fnan? ch
+      let b ← fnan? b
+      let st ← fnan? st
+      let px ← fnan? px
+      let py ← fnan? py
+      let pz ← fnan? pz
+      let ks ← (splitList ks).mapM fnan?
+      pure ⟨x, y, z, e, ch, b, st, px, py, pz, ks⟩
+  | _ => none
+
+def gparts? (s : String) : Option (List (Gen.Smear.Ptl Float)) :=
+  if s == "." then some [] else (s.splitOn "|").mapM gpart?
+
+def gsmear (L : Lattice Float) (ns : List Float) (sigma : Float) (q k : String) (add : Bool) (g : List Float)
+    (ps : List (Gen.Smear.Ptl Float)) : String :=
+  match ns with
+  | [a, b, c] =>
+    let obj : SparkxVerif.Lattice.Lat Float Float :=
+      { Gen.Smear.init linspace L.X.lo L.X.hi L.Y.lo L.Y.hi L.Z.lo L.Z.hi L.X.n L.Y.n L.Z.n with grid := g }
+    match Gen.Smear.initAttrs linspace L.X.lo L.X.hi L.Y.lo L.Y.hi L.Z.lo L.Z.hi L.X.n L.Y.n L.Z.n (some a) (some b) (some c) with
+    | .error e => s!"err {e.toString}"
+    | .ok A =>
+      match Gen.Smear.addParticleData linspace Float.isNaN pyRound obj A ps sigma q k add with
+      | .ok r => s!"ok {showFloats r.grid}"
+      | .error e => s!"err {e.toString}"
+  | _ => "bad-op"
+
 def handle : List String → String
   | ["lin", lo, hi, n] =>
     match floatOfHex? lo, floatOfHex? hi, n.toNat? with
@@ -75,6 +127,16 @@ def handle : List String → String
         | none => "err value"
       | _, _ => "bad-op"
     | _, _ => "bad-op"
+  | ["gsmear", lat, ns, sigma, q, k, add, grid, ps] =>
+    match lattice? lat, floatList? (ns.replace "," ";"), floatOfHex? sigma, gparts? ps with
+    | some L, some ns, some sigma, some ps =>
+      let g? : Option (List Float) :=
+        if grid == "z" then some (List.replicate L.size 0.0) else floatList? grid
+      match g?, add with
+      | some g, "0" | some g, "1" =>
+        if g.length ≠ L.size then "bad-op" else gsmear L ns sigma q k (add == "1") g ps
+      | _, _ => "bad-op"
+    | _, _, _, _ => "bad-op"
   | _ => "bad-op"
 
 end SparkxVerif.Drv.C16
